@@ -27,6 +27,8 @@ CHECKS = {
             dict(harness="C01_F3", panicnil=[0, 1], cover=["accepted", "rejected"], bounds="all inputs of exactly 3 " + D),
             dict(harness="C01_T1", panicnil=[1], cover=["accepted", "rejected"], bounds="43 templates x every position replaced by one symbolic rune over D"),
             dict(harness="C01_AliasQ", cover=["accepted"], bounds="alias a = one free ASCII byte (+ optional blank), alias b = x, input 'a b; a'"),
+            dict(harness="C01_Err", panicnil=[0, 1], bounds="10 ill-formed programs whose error arrives while a here-document, substitution, quote or comment is pending"),
+            dict(harness="C01_Err1", panicnil=[1], bounds="the same 10 programs x one symbolic hole over D"),
             dict(harness="C01_Sources", bounds="52 concrete templates through string/[]byte/bufio.Reader/io.Reader"),
         ],
         "thorough": [
@@ -38,6 +40,8 @@ CHECKS = {
             dict(harness="C01_T2", panicnil=[1], bounds="43 templates x every adjacent pair replaced by 2 symbolic ASCII runes"),
             dict(harness="C01_Ins1", panicnil=[1], bounds="43 templates x one symbolic rune inserted at every position"),
             dict(harness="C01_Alias", panicnil=[1], cover=["accepted"], bounds="alias table {a: 2 free bytes[+blank], b: 1 free byte[+blank]} x 2 free runes of {a b blank ; newline} + ' a b'"),
+            dict(harness="C01_Err", panicnil=[0, 1]),
+            dict(harness="C01_Err1", panicnil=[0, 1]),
             dict(harness="C01_Sources"),
         ],
     },
@@ -50,6 +54,7 @@ CHECKS = {
             dict(harness="C02_Ref_F3", cover=["ref-complete", "ref-rejects"], bounds="differential against the independent recogniser refparse: every 3-rune input over D that the recogniser classifies as a complete command is accepted and consumed exactly"),
             dict(harness="C02_Ref_T1", cover=["ref-complete", "ref-rejects"], bounds="same differential on 57 templates x one symbolic hole"),
             dict(harness="C02_Cross", bounds="14 cross-construct programs (parenthesis bookkeeping of case patterns, subshells, function definitions, substitutions vs the (( )) command), each against an equivalent spelling"),
+            dict(harness="C02_Prefix", bounds="every prefix of every template, error template and here-document site (programs cut in the middle of a construct) against the recogniser: complete => accepted and consumed exactly"),
         ],
         "thorough": [
             dict(harness="C02_D1B2"),
@@ -58,6 +63,7 @@ CHECKS = {
             dict(harness="C02_Reserved"),
             dict(harness="C02_Closers"),
             dict(harness="C02_Cross"),
+            dict(harness="C02_Prefix"),
             dict(harness="C02_Ref_F3", cover=["ref-complete", "ref-rejects"]),
             dict(harness="C02_Ref_F4", cover=["ref-complete", "ref-rejects"], bounds="same differential on every 4-rune ASCII input"),
             dict(harness="C02_Ref_T1", cover=["ref-complete", "ref-rejects"]),
@@ -72,12 +78,14 @@ CHECKS = {
             dict(harness="C03_Ref_F3", cover=["ref-complete", "ref-rejects"], bounds="differential against the independent recogniser refparse: every 3-rune input over D that the recogniser does not classify as a complete command is rejected"),
             dict(harness="C03_Ref_T1", cover=["ref-complete", "ref-rejects"], bounds="same differential on 57 templates x one symbolic hole"),
             dict(harness="C03_Ref_Gen", bounds="the recogniser and the parser against the derivation generator (depth 2, budget 2, single line): both accept every derivation"),
+            dict(harness="C03_Prefix", bounds="every prefix of every template, error template and here-document site (1659 programs cut in the middle of a construct, incl. right after a here-document delimiter) against the recogniser: ill-formed or incomplete => rejected"),
         ],
         "thorough": [
             dict(harness="C03_Ref_F3", cover=["ref-complete", "ref-rejects"]),
             dict(harness="C03_Ref_F4", cover=["ref-complete", "ref-rejects"], bounds="same differential on every 4-rune ASCII input"),
             dict(harness="C03_Ref_T1", cover=["ref-complete", "ref-rejects"]),
             dict(harness="C03_Ref_Gen"),
+            dict(harness="C03_Prefix"),
             dict(harness="C03_Negative"),
             dict(harness="C03_Damage", cover=["deleted-reserved-word", "duplicated-operator", "stray-at-start", "operator-at-end"]),
             dict(harness="C03_Loc_F2", cover=["accepted", "rejected"]),
@@ -139,6 +147,7 @@ CHECKS = {
             dict(harness="C06_Parse_P2", sched=True, bounds="same sources x every schedule with at most 2 preemptions"),
             dict(harness="C06_Parse_F2", sched=True, bounds="all 2-rune ASCII inputs x every schedule with at most 1 preemption"),
             dict(harness="C06_Eval_P2", sched=True, bounds="9 arithmetic expressions (several errors, assignments, lexical errors) x every schedule with at most 2 preemptions"),
+            dict(harness="C06_Err_P1", sched=True, bounds="10 ill-formed programs with a pending here-document / substitution / comment at the error x every schedule with at most 1 preemption"),
         ],
         "thorough": [
             dict(harness="C06_Parse_P1", sched=True),
@@ -146,6 +155,8 @@ CHECKS = {
             dict(harness="C06_Parse_P3", sched=True, bounds="same sources x every schedule with at most 3 preemptions", timeout="40m"),
             dict(harness="C06_Parse_F2", sched=True),
             dict(harness="C06_Eval_P2", sched=True),
+            dict(harness="C06_Err_P1", sched=True),
+            dict(harness="C06_Err_P2", sched=True, bounds="same x at most 2 preemptions"),
             dict(harness="C06_Eval_P3", sched=True, bounds="9 expressions x at most 3 preemptions"),
         ],
     },
@@ -155,6 +166,8 @@ CHECKS = {
             dict(harness="C07_F3", cover=["complete", "comment-only"], bounds="every 3-rune input over D that is a complete command on its own, followed by a second command"),
             dict(harness="C07_T1", cover=["complete"], bounds="52 templates x one symbolic hole, followed by a second command"),
             dict(harness="C07_Blank", bounds="1..3 blank lines (optionally with one symbolic blank) before a command"),
+            dict(harness="C07_Ref_T1", cover=["stream-consumed"], bounds="templates x one symbolic hole + a second command: the stream is cut by the independent recogniser; every successive call must stop exactly at its cuts"),
+            dict(harness="C07_Ref_F3", cover=["stream-consumed"], bounds="same for every 3-rune input over D + a second command"),
         ],
         "thorough": [
             dict(harness="C07_T0", cover=["complete"]),
@@ -162,6 +175,8 @@ CHECKS = {
             dict(harness="C07_F3", cover=["complete", "comment-only"]),
             dict(harness="C07_T1", cover=["complete"]),
             dict(harness="C07_Blank"),
+            dict(harness="C07_Ref_T1", cover=["stream-consumed"]),
+            dict(harness="C07_Ref_F3", cover=["stream-consumed"]),
         ],
     },
     "C08": {
@@ -187,6 +202,8 @@ CHECKS = {
             dict(harness="C10_F3", cover=["fault", "fault-not-reached"], bounds="all 3-rune ASCII inputs x every fault position k in [0,3] (k symbolic)"),
             dict(harness="C10_T0", cover=["fault"], bounds="43 concrete templates x every fault position (k symbolic)"),
             dict(harness="C10_Reader", cover=["fault"], bounds="43 concrete templates delivered by an io.Reader (raw and through bufio.Reader) failing after every byte count"),
+            dict(harness="C10_Transient_T0", cover=["fault"], bounds="templates x one transient failure at every position (the scanner fails once, then continues to deliver the text)"),
+            dict(harness="C10_Transient_F3", cover=["fault"], bounds="all 3-rune ASCII inputs x one transient failure at every position"),
         ],
         "thorough": [
             dict(harness="C10_F2", cover=["fault", "fault-not-reached"]),
@@ -194,6 +211,8 @@ CHECKS = {
             dict(harness="C10_T0", cover=["fault"]),
             dict(harness="C10_T1", cover=["fault"], bounds="43 templates x one symbolic hole x every fault position"),
             dict(harness="C10_Reader", cover=["fault"]),
+            dict(harness="C10_Transient_T0", cover=["fault"]),
+            dict(harness="C10_Transient_F3", cover=["fault"]),
         ],
     },
     "C11": {
@@ -240,6 +259,7 @@ CHECKS = {
             dict(harness="C13_Length", bounds="${#p} on a value with 2- and 3-byte characters and one symbolic byte"),
             dict(harness="C13_Special", bounds="8 special parameters x 0..2 positional parameters of 1 symbolic byte: read, ${sp:=w}, Set"),
             dict(harness="C13_IFSJoin", bounds="\"$*\" with 2 positional parameters of 1 symbolic byte x IFS {2 symbolic bytes, empty, unset}"),
+            dict(harness="C13_PosName", bounds="names of 1,2,3,18,19,20,21 digits (two leading digits symbolic, the rest nines) are positional parameters: unset beyond Args, not assignable by Set or :=; strconv.Atoi/ParseInt interpreted from std source on the symbolic digits"),
             dict(harness="C13_Trim", bounds="% %% # ## x values of 3 bytes over {a,b} x 9 patterns x quoted/unquoted pattern"),
         ],
     },
@@ -314,6 +334,7 @@ CHECKS = {
             dict(harness="C19_Expand_F2", cover=["accepted"], bounds="accepted inputs among all 2-rune strings over D x all 2^64 ExpMode x all 2^64 Option values, Args={sh,p1,''}"),
             dict(harness="C19_Measure_T1", cover=["accepted"], bounds="57 templates x one symbolic hole"),
             dict(harness="C19_Expand_T0Q", cover=["accepted"], bounds="57 concrete templates x 6 documented ExpModes x NoGlob|NoUnset on/off x {0,1,2} positional parameters"),
+            dict(harness="C19_Deep", bounds="8 kinds of multi-line compound constructs nested 1, 5, 9 and 12 levels deep (optionally inside a brace group) x 4 printer configurations: measured, printed, re-parsed"),
             dict(harness="C19_Eval_F2", cover=["error", "value"], bounds="Eval of all 2-rune strings over D"),
             dict(harness="C19_Match_22", bounds="patterns of 2 symbols over {a b * ? [ ] ! ^ - \\ . newline} x subjects of 2 over {a b - ] . newline} x all Mode values"),
             dict(harness="C19_Glob_3", bounds="Glob of all 3-symbol patterns over {a * ? [ ] \\ / .} on an empty file system"),
